@@ -2296,6 +2296,30 @@ static void do_equimod(CMR* cmr)
 
 typedef void (*handler)(CMR*);
 static void do_tlimit(CMR* cmr);
+/* between the calls of a history the heap is used and partly released, so that the addresses malloc hands out to the
+ * library differ from those of the reference run: an answer must not depend on them */
+#define MAX_KEPT 4096
+static __thread void* kept_blocks[MAX_KEPT];
+static __thread int num_kept = 0;
+static void heap_scramble(unsigned seed)
+{
+  void* tmp[48];
+  for (int j = 0; j < 48; ++j)
+    tmp[j] = malloc(16 + ((seed * 2654435761u + (unsigned) j * 40503u) >> 7) % 700);
+  for (int j = 0; j < 48; ++j)
+  {
+    if (j % 3 == 0 && num_kept < MAX_KEPT)
+      kept_blocks[num_kept++] = tmp[j];
+    else
+      free(tmp[j]);
+  }
+}
+static void heap_unscramble(void)
+{
+  while (num_kept > 0)
+    free(kept_blocks[--num_kept]);
+}
+
 static void do_hist(CMR* cmr);
 static void do_threads(CMR* cmr);
 static struct
@@ -2559,6 +2583,7 @@ static void do_hist(CMR* cmr)
   for (size_t i = 0; i < ncalls; ++i)
   {
     CAPTURE H1, H2;
+    heap_scramble(2 * (unsigned) i + 1);
     if (kk[i] >= 0)
     {
       clk_reads = 0;
@@ -2569,6 +2594,7 @@ static void do_hist(CMR* cmr)
     clk_jump_at = -1;
     g_tl = DBL_MAX;
     int timedOut = H1.timeouts > 0;
+    heap_scramble(2 * (unsigned) i + 2);
     run_captured(cmr, sub[i], st[i], en[i], &H2);
     oi(sub[i]);
     oi(kk[i]);
@@ -2584,6 +2610,7 @@ static void do_hist(CMR* cmr)
   rec_end();
   for (size_t i = 0; i < ncalls; ++i)
     free(A[i].text);
+  heap_unscramble();
   poison_byte = savedPoison;
   ptok = endAll;
 }
